@@ -1,8 +1,10 @@
 package ref
 
 import (
+	"encoding/json"
 	"strconv"
 	"strings"
+	"unicode/utf8"
 )
 
 // Expr is the reference expression AST. One struct so that it marshals to
@@ -22,12 +24,52 @@ type Expr struct {
 	A  []*Expr `json:"a,omitempty"`
 }
 
+// A literal that is no valid UTF-8 travels through JSON as bytes (JSON text
+// would replace the invalid bytes and a replay would run another expression).
+type exprWire struct {
+	K  string  `json:"k"`
+	Op string  `json:"op,omitempty"`
+	S  string  `json:"s,omitempty"`
+	SB []byte  `json:"sb,omitempty"`
+	I  int64   `json:"i,omitempty"`
+	F  float64 `json:"f,omitempty"`
+	B  bool    `json:"b,omitempty"`
+	A  []*Expr `json:"a,omitempty"`
+}
+
+func (e Expr) MarshalJSON() ([]byte, error) {
+	w := exprWire{K: e.K, Op: e.Op, S: e.S, I: e.I, F: e.F, B: e.B, A: e.A}
+	if !utf8.ValidString(e.S) {
+		w.S, w.SB = strconv.QuoteToASCII(e.S), []byte(e.S)
+	}
+	return json.Marshal(w)
+}
+
+func (e *Expr) UnmarshalJSON(b []byte) error {
+	var w exprWire
+	if err := json.Unmarshal(b, &w); err != nil {
+		return err
+	}
+	*e = Expr{K: w.K, Op: w.Op, S: w.S, I: w.I, F: w.F, B: w.B, A: w.A}
+	if w.SB != nil {
+		e.S = string(w.SB)
+	}
+	return nil
+}
+
 func Key() *Expr           { return &Expr{K: "key"} }
 func Value() *Expr         { return &Expr{K: "value"} }
 func S(s string) *Expr     { return &Expr{K: "s", S: s} }
 func N(i int64) *Expr      { return &Expr{K: "i", I: i} }
 func Fl(f float64) *Expr   { return &Expr{K: "f", F: f} }
 func Bl(b bool) *Expr      { return &Expr{K: "b", B: b} }
+
+// FlText is the float literal written as text (digits beyond the int64 range,
+// "1.50", "007.0"): its value is what ParseFloat reads from that text.
+func FlText(text string) *Expr {
+	f, _ := strconv.ParseFloat(text, 64)
+	return &Expr{K: "f", F: f, S: text}
+}
 func Name(s string) *Expr  { return &Expr{K: "name", S: s} }
 func Not(a *Expr) *Expr    { return &Expr{K: "not", A: []*Expr{a}} }
 func Bin(op string, a, b *Expr) *Expr {
@@ -197,6 +239,9 @@ func (e *Expr) render(st Style, pp int, right bool) string {
 	case "i":
 		return strconv.FormatInt(e.I, 10)
 	case "f":
+		if e.S != "" {
+			return e.S // (a float literal written in a particular way, see FlText)
+		}
 		return fmtFloatLit(e.F)
 	case "b":
 		if e.B {
